@@ -1,5 +1,7 @@
 package base
 
+import "strings"
+
 type DefinedClass struct {
 	frame string
 	class string
@@ -50,4 +52,26 @@ func IsClassDefined(frames []string, class string) bool {
 func SetDefinedClass(frame, class string) {
 	key := DefinedClass{frame: frame, class: class}
 	DefinedClassTable[key] = true
+}
+
+// LexicalClassFrame resolves an unqualified class name the way Ruby does from inside
+// a namespace: the enclosing namespaces from the innermost outwards, then the top level.
+func LexicalClassFrame(frame, class string) (string, bool) {
+	for {
+		if _, ok := DefinedClassTable[DefinedClass{frame: frame, class: class}]; ok {
+			return frame, true
+		}
+
+		if frame == "" {
+			return "", false
+		}
+
+		idx := strings.LastIndex(frame, "::")
+		if idx < 0 {
+			frame = ""
+			continue
+		}
+
+		frame = frame[:idx]
+	}
 }
